@@ -659,8 +659,12 @@ def rule_evaluation_context(check, rule):
             exp = 'empty'
         elif featnone is True:
             exp = 'empty'
+        elif lits.get(('isinstance', raw, 'str')) is False:
+            exp = 'pre'
         elif feat is True:
-            exp = 'postponed'
+            # only source text can be a postponed annotation: a branch that has established the raw annotation is not text keeps it as it is
+            # (D35; whether the text test is there at all is C14.R7's business)
+            exp = 'pre' if lits.get(('isinstance', raw, 'str')) is False else 'postponed'
         elif feat is False:
             exp = 'pre'
         else:
@@ -1017,3 +1021,199 @@ def rule_eq_does_not_evaluate(check, rule):
                 else:
                     check.holds(rule, site_of(meth, meth.node), '%s.%s does not evaluate source text (or does so under a handler)' % (ci.name, mname), key=key)
     check.floor(rule, 'implementations reached from UpgradedAnnotation.__eq__', n, 2)
+
+
+def dominated_by(fi, node, atom):
+    """is `node` only reached after a test established the fact `atom` recognises?  `atom(test, pol)` says whether the leaf test `test`, taken
+    with polarity `pol`, establishes it.  Recognised shapes: an enclosing `if`/`elif`/`while`/conditional expression/`and` operand (negated forms
+    with the node in the other branch, `and`/`or` split by De Morgan), an earlier `assert`, an earlier guard clause `if <not fact>: raise/return/
+    continue/break` in an enclosing block."""
+    def says(test, pol):
+        if isinstance(test, ast.UnaryOp) and isinstance(test.op, ast.Not):
+            return says(test.operand, not pol)
+        if isinstance(test, ast.BoolOp) and isinstance(test.op, ast.And) and pol:
+            return any(says(v, True) for v in test.values)
+        if isinstance(test, ast.BoolOp) and isinstance(test.op, ast.Or) and not pol:
+            return any(says(v, False) for v in test.values)
+        return atom(test, pol)
+    t = node
+    while getattr(t, '_parent', None) is not None and t is not fi.node:
+        par = t._parent
+        if isinstance(par, (ast.If, ast.While)):
+            if t in par.body and says(par.test, True):
+                return True
+            if isinstance(par, ast.If) and t in par.orelse and says(par.test, False):
+                return True
+        if isinstance(par, ast.IfExp):
+            if t is par.body and says(par.test, True):
+                return True
+            if t is par.orelse and says(par.test, False):
+                return True
+        if isinstance(par, ast.BoolOp) and t in par.values:
+            i = par.values.index(t)
+            if isinstance(par.op, ast.And) and any(says(v, True) for v in par.values[:i]):
+                return True
+            if isinstance(par.op, ast.Or) and any(says(v, False) for v in par.values[:i]):
+                return True
+        for field in ('body', 'orelse', 'finalbody'):
+            blk = getattr(par, field, None)
+            if isinstance(blk, list) and t in blk:
+                for s_ in blk[:blk.index(t)]:
+                    if isinstance(s_, ast.Assert) and says(s_.test, True):
+                        return True
+                    if isinstance(s_, ast.If) and not s_.orelse and isinstance(s_.body[-1], (ast.Raise, ast.Return, ast.Continue, ast.Break)) \
+                            and says(s_.test, False):
+                        return True
+        t = par
+    return False
+
+
+def _is_text_atom(txt):
+    def atom(test, pol):
+        if not pol or not isinstance(test, ast.Call) or norm(test.func) != 'isinstance' or len(test.args) != 2 or norm(test.args[0]) != txt:
+            return False
+        ty = test.args[1]
+        tys = ty.elts if isinstance(ty, ast.Tuple) else [ty]
+        return all(norm(t_) in ('str', 'bytes', 'types.CodeType') for t_ in tys)
+    return atom
+
+
+def _attrs_fields(ci):
+    """field names, in declaration order, of an attrs/dataclass-style class (annotated class-level names)"""
+    return [s.target.id for s in ci.node.body if isinstance(s, ast.AnnAssign) and isinstance(s.target, ast.Name)]
+
+
+def rule_eval_operand_is_text(check, rule):
+    """C14.R7: "== and != return a bool without raising".  `eval()` accepts source text (or a code object) only; whatever else reaches it is a
+    TypeError, and UpgradedAnnotation.__eq__ ends in the `source_value` implementations.  For each `eval(E, ...)` there: E is text at the call
+    (an isinstance test dominates it), or E is a field of the class and every construction of the class in the package hands that field a
+    value an isinstance test established as text.  Classifying an annotation as postponed from the compiler flag of the function alone does
+    not: functools.wraps over a function of another module, or __annotations__ resolved in place, puts evaluated objects under that flag."""
+    repo = check.repo
+    base = repo.cls('%s:UpgradedAnnotation' % SIG)
+    n = sites = 0
+    for m in repo.modules.values():
+        for ci in m.classes.values():
+            if ci is not base and not any(r[0] == 'class' and r[1] is base for r in repo.class_bases(ci)):
+                continue
+            for mname, meth in sorted(ci.methods.items()):
+                selfname = (meth.params()[0] or [None])[0]
+                for c in ast.walk(meth.node):
+                    if not (isinstance(c, ast.Call) and isinstance(c.func, ast.Name) and c.func.id == 'eval' and c.args):
+                        continue
+                    n += 1
+                    check.analysed(meth)
+                    e = c.args[0]
+                    key = 'eval-text|%s.%s' % (ci.name, mname)
+                    if isinstance(e, ast.Constant) and isinstance(e.value, str) or dominated_by(meth, c, _is_text_atom(norm(e))):
+                        check.holds(rule, site_of(meth, c), 'eval() is handed text: a test at the call establishes it', key=key)
+                        continue
+                    fields = _attrs_fields(ci)
+                    if not (isinstance(e, ast.Attribute) and isinstance(e.value, ast.Name) and e.value.id == selfname and e.attr in fields
+                            and '__init__' not in ci.methods):
+                        check.violation(rule, site_of(meth, c), 'eval(%s) in %s.%s: nothing establishes that the operand is source text' % (norm(e), ci.name, mname),
+                                        key=key, witness='an annotation that is an already evaluated object')
+                        continue
+                    idx, kw = fields.index(e.attr), e.attr.lstrip('_')
+                    bad = []
+                    sites = 0
+                    for fi in repo.all_funcs():
+                        for call in _own_nodes(fi.node):
+                            if not (isinstance(call, ast.Call) and isinstance(call.func, ast.Name) and call.func.id == ci.name
+                                    and fi.module is ci.module):
+                                continue
+                            arg = call.args[idx] if len(call.args) > idx else next((k.value for k in call.keywords if k.arg == kw), None)
+                            sites += 1
+                            check.analysed(fi)
+                            if arg is None or not (isinstance(arg, ast.Constant) and isinstance(arg.value, str)
+                                                   or dominated_by(fi, call, _is_text_atom(norm(arg)))):
+                                bad.append((fi, call, arg))
+                    if not sites:
+                        check.inconclusive(rule, site_of(meth, c), 'no construction of %s found in its module' % ci.name, key=key)
+                    elif bad:
+                        fi, call, arg = bad[0]
+                        check.violation(rule, site_of(fi, call), '%s(%s, ...) is built although nothing on the way establishes that %s is source text, and %s.%s '
+                                        'hands it to eval(): comparing a signature whose annotations are evaluated objects found under a function compiled '
+                                        'with postponed evaluation raises TypeError' % (ci.name, norm(arg) if arg is not None else '?', norm(arg) if arg is not None else '?', ci.name, mname),
+                                        key=key, witness='from __future__ import annotations; functools.wraps(g)(w) with g from a module without it: '
+                                                         'sigtools.signature(w) == sigtools.signature(w) raises TypeError')
+                    else:
+                        check.holds(rule, site_of(meth, c), 'eval(%s): every construction of %s (%d) passes a value tested to be text' % (norm(e), ci.name, sites), key=key)
+    check.floor(rule, 'eval() calls reached from UpgradedAnnotation.__eq__', n, 1)
+
+
+def rule_eq_reflexive(check, rule):
+    """C14.R8: "equality is reflexive".  inspect.Signature/Parameter.__eq__ answer `self is other` before comparing anything.  An override keeps
+    that when (a) it has the identity shortcut itself, before any comparison, or (b) it first takes super().__eq__(other) (shortcut inherited;
+    C14.R1 checks how the result is used) and every further `==` compares the same plain attribute of the two operands -- reflexive as soon as
+    the attribute's own class is, which this rule checks for every class of the package.  Comparing values computed by calls (two evaluations
+    of an annotation give two objects) without the shortcut is not reflexive."""
+    repo = check.repo
+    n = 0
+    for m in repo.modules.values():
+        for ci in m.classes.values():
+            eq = ci.methods.get('__eq__')
+            if eq is None:
+                continue
+            pos = eq.params()[0]
+            if len(pos) < 2:
+                continue
+            me, other = pos[0], pos[1]
+            n += 1
+            check.analysed(eq)
+            key = 'eq-reflexive|%s' % ci.name
+
+            def ident(test):
+                """+1: test says identical, -1: says not identical, 0: neither"""
+                pol = 1
+                while isinstance(test, ast.UnaryOp) and isinstance(test.op, ast.Not):
+                    test, pol = test.operand, -pol
+                if isinstance(test, ast.Compare) and len(test.ops) == 1 and isinstance(test.ops[0], (ast.Is, ast.IsNot)) \
+                        and set([norm(test.left), norm(test.comparators[0])]) == set([me, other]):
+                    return pol if isinstance(test.ops[0], ast.Is) else -pol
+                return 0
+
+            def computed_compare(node):
+                """an `==`/`!=` between values that are not the same plain attribute of the two operands"""
+                for x in ast.walk(node):
+                    if isinstance(x, ast.Compare) and any(isinstance(o, (ast.Eq, ast.NotEq)) for o in x.ops):
+                        ops = [x.left] + list(x.comparators)
+                        plain = all(isinstance(o, ast.Attribute) and isinstance(o.value, ast.Name) and o.value.id in (me, other) for o in ops)
+                        if not (plain and len(set(o.attr for o in ops)) == 1):
+                            return x
+                return None
+
+            def returns_true(stmts):
+                return bool(stmts) and isinstance(stmts[0], ast.Return) and isinstance(stmts[0].value, ast.Constant) and stmts[0].value.value is True
+
+            def scan(stmts):
+                """'shortcut' | offending compare node | None (end reached)"""
+                for s in stmts:
+                    if isinstance(s, ast.If):
+                        i = ident(s.test)
+                        if i:
+                            same, rest = (s.body, s.orelse) if i > 0 else (s.orelse, s.body)
+                            if returns_true(same):
+                                return 'shortcut'
+                    bad = computed_compare(s)
+                    if bad is not None:
+                        return bad
+                return None
+
+            res = scan(eq.main_body)
+            if res == 'shortcut':
+                check.holds(rule, site_of(eq, eq.node), '%s.__eq__ answers `%s is %s` before comparing anything computed' % (ci.name, me, other), key=key)
+            elif res is None:
+                sup = any(isinstance(c, ast.Call) and isinstance(c.func, ast.Attribute) and c.func.attr == '__eq__' and isinstance(c.func.value, ast.Call)
+                          and norm(c.func.value.func) == 'super' for c in ast.walk(eq.node))
+                if sup:
+                    check.holds(rule, site_of(eq, eq.node), '%s.__eq__ starts from super().__eq__ (identity shortcut inherited) and further compares plain '
+                                'attributes of the two operands only' % ci.name, key=key)
+                else:
+                    check.holds(rule, site_of(eq, eq.node), '%s.__eq__ compares plain attributes of the two operands only' % ci.name, key=key)
+            else:
+                check.violation(rule, site_of(eq, res), '%s.__eq__ compares computed values (%s) without first answering `%s is %s`: an object whose '
+                                'computed value has no value equality (a fresh object per evaluation, NaN) is unequal to itself, unlike its inspect '
+                                'counterpart' % (ci.name, norm(res)[:70], me, other), key=key,
+                                witness="from __future__ import annotations; def f(a: Annotated[int, object()]): ...; s = sigtools.signature(f); s == s is False")
+    check.floor(rule, '__eq__ overrides', n, 3)
